@@ -134,7 +134,10 @@ def main():
             sdir = os.path.join(base, name)
             if not os.path.isfile(os.path.join(sdir, "patch.diff")):
                 continue
-            r = run(sdir, tier)
+            try:
+                r = run(sdir, tier)
+            except SystemExit as e:
+                r = {"-": {"exit": 2, "violations": 0, "clauses": [], "note": str(e)[:200]}}
             table[name] = r
             print(name, json.dumps(r), flush=True)
         missed = [n for n, r in table.items() if not any(x["exit"] == 1 for x in r.values())]
